@@ -10,7 +10,8 @@
  *       -> <id> FAIL k=<k> what=<text> recipe=<text>
  *   T <id> <spec> <framehex> <dicthex> ...   multi-DDict table:  spec = <mode>:<active>:<e0>,<e1>,...  entries: index of a dictionary of
  *       the line (0-based), 'r<i>' = that dictionary's bytes as RAW content DDict (dictID 0); mode = dctx|stream|usingddict
- *       the DDicts are referenced in the order given, then entry <active> is referenced again (becomes the active one)
+ *       the DDicts are referenced in the order given, then entry <active> is referenced again (becomes the active one);
+ *       mode ldctx|lstream: entry <active>'s bytes are instead LOADED into the context (ZSTD_DCtx_loadDictionary_advanced, by copy)
  *       -> <id> OK <hex>  |  <id> ERR <name>
  */
 #define ZSTD_STATIC_LINKING_ONLY
@@ -515,7 +516,7 @@ end:
 
 static void cmd_T(char** t, int nt) {
     const char* id = t[1]; char mode[32]; int active = 0; const char* p; size_t fn; unsigned char* f = unhex(t[3], &fn);
-    unsigned char* ds[8]; size_t dn[8]; int ndict = 0, i; ZSTD_DDict* dd[64]; int ne = 0; ZSTD_DCtx* dc = ZSTD_createDCtx(); size_t r = 0; size_t cap = 1 << 22; unsigned char* out = (unsigned char*)malloc(cap);
+    unsigned char* ds[8]; size_t dn[8]; int ndict = 0, i; ZSTD_DDict* dd[64]; int eidx[64], eraw[64]; int ne = 0; int local = 0; ZSTD_DCtx* dc = ZSTD_createDCtx(); size_t r = 0; size_t cap = 1 << 22; unsigned char* out = (unsigned char*)malloc(cap);
     for (i = 4; i < nt && ndict < 8; i++) { ds[ndict] = unhex(t[i], &dn[ndict]); ndict++; }
     sscanf(t[2], "%31[^:]:%d", mode, &active); p = strchr(t[2], ':'); p = p ? strchr(p + 1, ':') : NULL; p = p ? p + 1 : "";
     r = ZSTD_DCtx_setParameter(dc, ZSTD_d_refMultipleDDicts, ZSTD_rmd_refMultipleDDicts);
@@ -523,8 +524,14 @@ static void cmd_T(char** t, int nt) {
         if (idx < 0 || idx >= ndict) continue;
         dd[ne] = raw ? ZSTD_createDDict_advanced(ds[idx], dn[idx], ZSTD_dlm_byCopy, ZSTD_dct_rawContent, ZSTD_defaultCMem) : ZSTD_createDDict(ds[idx], dn[idx]);
         if (!dd[ne]) { r = (size_t)-ZSTD_error_dictionary_corrupted; break; }
+        eidx[ne] = idx; eraw[ne] = raw;
         r = ZSTD_DCtx_refDDict(dc, dd[ne]); ne++; }
-    if (!ZSTD_isError(r) && active >= 0 && active < ne) r = ZSTD_DCtx_refDDict(dc, dd[active]);
+    /* modes "ldctx" / "lstream" (round 3, fix d0ddbff): the current dictionary is the COPY made by ZSTD_DCtx_loadDictionary of entry <active>'s bytes,
+     * not a referenced DDict: the selection among the referenced DDicts must leave it alone */
+    if (mode[0] == 'l') { local = 1; memmove(mode, mode + 1, strlen(mode)); }
+    if (!ZSTD_isError(r) && active >= 0 && active < ne)
+        r = local ? ZSTD_DCtx_loadDictionary_advanced(dc, ds[eidx[active]], dn[eidx[active]], ZSTD_dlm_byCopy, eraw[active] ? ZSTD_dct_rawContent : ZSTD_dct_auto)
+                  : ZSTD_DCtx_refDDict(dc, dd[active]);
     if (!ZSTD_isError(r)) {
         if (!strcmp(mode, "dctx")) r = ZSTD_decompressDCtx(dc, out, cap, f, fn);
         else if (!strcmp(mode, "usingddict")) r = ZSTD_decompress_usingDDict(dc, out, cap, f, fn, dd[active >= 0 && active < ne ? active : 0]);
